@@ -74,6 +74,22 @@ def gen_cases(rng, tier):
                       'vec': fqeio.random_state(rng, norb, keys, density=0.9),
                       'entries': ents, 'rank': 2 if h2 else 1,
                       'time': rng.choice([0.05, -0.3, 1.0, 7.5]) if not h2 else rng.choice([0.05, -0.1, 0.2])})
+    # conservation on sectors whose string counts cross the batch sizes of the compiled kernels (462 / 495 strings of one
+    # spin, on either spin): quadratic spin-free Hamiltonians (orbital-rotation route) and one- plus two-body ones
+    big = [(11, 1, 5), (11, 5, 1), (12, 4, 1), (12, 1, 4)]
+    for k, (norb, na, nb) in enumerate(big if tier != 'quick' else big[:2]):
+        keys = fqeio.sector_keys(norb, 'ns', na + nb, na - nb)
+        basis = fqeio.basis_of(norb, keys)
+        vec = [[a, b, rng.randint(-2, 2) or 1, rng.randint(-2, 2)] for a, b in rng.sample(basis, 40)]
+        h1 = {}
+        for i in range(norb):
+            for j in range(i, norb):
+                v = rng.randint(-2, 2) if (j - i) <= 2 else 0
+                h1[(i, j)] = v
+                h1[(j, i)] = v
+        ents = [[list(ix), v, 0] for ix, v in sorted(h1.items()) if v]
+        cases.append({'kind': 'conserve', 'norb': norb, 'n': na + nb, 'sz': na - nb, 'vec': vec, 'entries': ents, 'rank': 1,
+                      'time': rng.choice([0.3, -0.7]), 'big': True})
     return cases
 
 
@@ -103,6 +119,13 @@ def run_impl(case, mode):
                                 'norb': int(w.norb())})
                 except Exception as e:  # noqa
                     row.append({'reject': type(e).__name__})
+            # get_wavefunction_multiple builds the same single-sector objects, one per parameter triple
+            if 'keys' in row[0]:
+                try:
+                    many = fqe.get_wavefunction_multiple([[nele, ms, norb], [nele, ms, norb]])
+                    row[0]['multiple_same'] = (len(many) == 2 and all(_keys_shapes(w) == row[0]['keys'] for w in many))
+                except Exception as e:  # noqa
+                    row[0]['multiple_same'] = 'raised %s' % type(e).__name__
             out.append(row)
         return {'rows': out}
     if case['kind'] == 'ops':
@@ -230,6 +253,8 @@ def compare(case, got, exp, mode):
                         bad.append('%s%s: sectors/dimensions %s, expected %s' % (names[k], arg, g[k]['keys'], e[k]))
                     elif (g[k]['cn'], g[k]['cs']) != flags[k] or g[k]['norb'] != case['norb']:
                         bad.append('%s%s: flags/norb wrong' % (names[k], arg))
+                    if k == 0 and g[k].get('multiple_same', True) is not True:
+                        bad.append('get_wavefunction_multiple([%s, %s]) does not build the sectors of get_wavefunction: %s' % (list(arg), list(arg), g[k]['multiple_same']))
             if len(bad) > 4:
                 break
         return bad
